@@ -38,14 +38,19 @@ def gtf_points():
     return [D for D in M.points() if D["fmt"] == "gtf"]
 
 
-def model(rng, ngenes=None, odd=None):
-    """odd: None or a key of ODD_IDS (ids and some attribute values of that family); ngenes: None = 1-3."""
+def model(rng, ngenes=None, odd=None, explicit=None):
+    """odd: None or a key of ODD_IDS (ids and some attribute values of that family); ngenes: None = 1-3;
+    explicit: None (drawn: none / some / all gene and transcript lines, ordinary or derived-like), "differing" (all or
+    some such lines, rewritten by make_differing) or "derived-like" (all or some, looking exactly like derived features)."""
     D = rng.choice(gtf_points())
     tkey, gkey, subfeature = rng.choice(KEYSETS)
     explicit_mode = rng.choice(["none", "none", "none", "all", "some", "some"])
     # derived-like: the explicit lines look exactly like what inference would produce (source gffutils_derived,
     # '.' score and frame, exact extents), as in a re-import of an exported database: exercises the merge path
     derived_like = explicit_mode != "none" and rng.random() < 0.35
+    if explicit is not None:
+        explicit_mode = rng.choice(["all", "all", "some"])
+        derived_like = explicit == "derived-like"
     id_first = rng.choice(["g", "g", "t"])
     exotic = rng.random() < 0.2
     gfmt = rng.choice(GENE_IDS if exotic else GENE_IDS[:5])
@@ -141,13 +146,70 @@ def model(rng, ngenes=None, odd=None):
                 have = {k for k, _ in rec["attrs"]}
                 k = rng.choice([x for x in names if x not in have])
                 rec["attrs"].append([k, [rng.choice(ODD_VALUES)]])
+    differing = make_differing(rng, lines, tkey, gkey, subfeature) if explicit == "differing" else None
     for n, rec in enumerate(lines):
         rec["attrs"].append(["tag", ["L%d" % n]])
     out = {"D": D, "tkey": tkey, "gkey": gkey, "subfeature": subfeature, "lines": lines, "shuffle": shuffle,
            "explicit_mode": explicit_mode, "derived_like": derived_like}
     if odd is not None:
         out["odd"] = odd
+    if differing is not None:
+        out["differing"] = differing
     return out
+
+
+MERGE_STRATEGIES = ["error", "merge", "replace", "create_unique", "warning"]
+OTHER_SOURCES = ["HAVANA", "ensembl", "RefSeq", "manual", "BestRefSeq", "src2"]
+EXTRA_ATTRS = {"gene": [("gene_name", ["alpha", "BRCA2", "CG1234"]), ("gene_biotype", ["protein_coding", "lncRNA"]),
+                        ("level", ["1", "2"]), ("description", ["a gene of the file", "kinase"])],
+               "transcript": [("transcript_name", ["alpha-201", "T-RA"]), ("transcript_biotype", ["protein_coding", "retained_intron"]),
+                              ("transcript_support_level", ["1", "NA"]), ("ccdsid", ["CCDS1.1"])]}
+
+
+def make_differing(rng, lines, tkey, gkey, subfeature):
+    """Rewrite the gene / transcript lines of the file so that their columns differ from what inference would derive from
+    the subfeature lines: another source than the exons' (never 'gffutils_derived'), coordinates reaching beyond the exons on
+    one or both sides (6 of 10; 1 of 10 narrower than the exons), 1-2 attributes that no derived feature has (8 of 10).
+    seqid, strand and ids stay.  Returns the list of the kinds of difference made (file-wide)."""
+    made = set()
+    ext_t, ext_g = {}, {}
+    for rec in lines:
+        if rec["featuretype"] == subfeature:
+            for key, ext in ((tkey, ext_t), (gkey, ext_g)):
+                v = [x for k, x in rec["attrs"] if k == key]
+                if v and v[0]:
+                    s, e = ext.get(v[0][0], (int(rec["start"]), int(rec["end"])))
+                    ext[v[0][0]] = (min(s, int(rec["start"])), max(e, int(rec["end"])))
+    for rec in lines:
+        ft = rec["featuretype"]
+        if ft not in ("gene", "transcript"):
+            continue
+        key, ext = (gkey, ext_g) if ft == "gene" else (tkey, ext_t)
+        ident = [x for k, x in rec["attrs"] if k == key][0][0]
+        if rng.random() < 0.85:
+            rec["source"] = rng.choice([x for x in OTHER_SOURCES if x != rec["source"]])
+            made.add("source")
+        if ident in ext:
+            s, e = ext[ident]
+            r = rng.random()
+            if r < 0.6:
+                side = rng.choice(["left", "right", "both", "both"])
+                if side != "right":
+                    s = max(1, s - rng.randrange(1, 500))
+                if side != "left":
+                    e = e + rng.randrange(1, 500)
+                made.add("wider coordinates")
+            elif r < 0.7 and e - s >= 2:
+                s, e = s + 1, e - 1
+                made.add("narrower coordinates")
+            rec["start"], rec["end"] = str(s), str(e)
+        if rng.random() < 0.8:
+            have = {k for k, _ in rec["attrs"]}
+            for k, values in rng.sample(EXTRA_ATTRS[ft], rng.choice([1, 2])):
+                if k not in have:
+                    rec["attrs"].append([k, [rng.choice(values)]])
+                    made.add("extra attributes")
+    return sorted(made)
 
 
 def large_model(rng, where, nlines=None):
